@@ -186,6 +186,123 @@ def binary_cases(ctx):
     return out
 
 
+def _tail(kind, L, k):
+    """the discarded digits (an integer of L digits): exactly a tie, just above it (a 1 placed k zeros behind the 5), just below it"""
+    half = 5 * 10 ** (L - 1)
+    if kind == 'tie':
+        return half
+    if L == 1:
+        return 6 if kind == 'above' else 4
+    k = min(k, L - 2)
+    return half + 10 ** (L - 2 - k) if kind == 'above' else half - 10 ** (L - 2 - k)
+
+
+def rounding_cases(ctx):
+    """Dedicated family for every rounding operation: exactly a tie / just above / just below, at every discard length, kept digit even and odd,
+    the excess digit at every distance behind the 5, both signs.  decimal() (decNumber rescale), + - * (exact result with that digit pattern),
+    / (quotients at distance 1/(2b) from a half-way point: the sticky-digit argument), sqrt."""
+    r = ctx.rng
+    out = []
+
+    def ks(L):
+        if L < 2:
+            return [0]
+        allk = list(range(0, L - 1))
+        if not ctx.quick:
+            return allk
+        return sorted(set([0, 1, L - 2, r.choice(allk), r.choice(allk)]) & set(allk))
+
+    def kept(n, parity, lead_max=9):
+        """n digits, last digit of the given parity, not all nines"""
+        if n == 0:
+            return 0
+        first = r.randint(1, lead_max)
+        mid = [r.randint(0, 9) for _ in range(max(0, n - 2))]
+        last = r.choice([0, 2, 4, 6, 8] if parity == 0 else [1, 3, 5, 7])
+        digs = ([first] + mid + [last]) if n > 1 else [last if last else 2]
+        if n == 1:
+            digs = [r.choice([2, 4, 6, 8] if parity == 0 else [1, 3, 5, 7])]
+        return int(''.join(map(str, digs)))
+
+    for L in range(1, 35):
+        for parity in (0, 1):
+            for kind in ('tie', 'above', 'below'):
+                for k in ([0] if kind == 'tie' else ks(L)):
+                    D = _tail(kind, L, k)
+                    sg = r.random() < 0.5
+                    # ---- decimal(x, scale): the coefficient is K followed by the L discarded digits
+                    nk = r.randint(1, 34 - L) if L < 34 else 0
+                    K = kept(nk, parity)
+                    coef = K * 10 ** L + D
+                    sc = r.choice([0, 1, 2, 3, 5, 8, 13, -1, -2, -4, r.randint(-20, 25)])
+                    if r.random() < 0.12:
+                        sc = r.choice([r.randint(-6111, -5000), r.randint(5000, 6175 - L), 6175 - L, -6111])
+                    e = -(sc + L)
+                    if -6176 <= e <= 6111:
+                        out.append(('round', (sg, coef, e), sc, 'decimal-' + kind))
+                    # ---- addition / subtraction: 34 kept digits, the other operand supplies the tail
+                    K = kept(34, parity)
+                    e = r.randint(-30, 25) if r.random() < 0.85 else r.choice([r.randint(-6176 + L, -6100), r.randint(6000, 6111)])
+                    out.append(('add', (sg, K, e), (sg, D, e - L), 'add-' + kind))
+                    out.append(('sub', (sg, K, e), (not sg, D, e - L), 'add-' + kind))
+                    out.append(('sub', (sg, K + 1, e), (sg, 10 ** L - D, e - L), 'sub-' + kind))
+                    # ---- multiplication: a * b = K' * 10^L + D exactly
+                    if L <= 32:
+                        K = kept(34, parity, lead_max=3)
+                        b = r.randint(9 * 10 ** (L - 1), 10 ** L - 1) if L > 1 else r.choice([7, 9])
+                        while b % 2 == 0 or b % 5 == 0:
+                            b += 1
+                        if b < 10 ** L:
+                            P = K * 10 ** L + D
+                            j = (-P * pow(10 ** (L + 1), -1, b)) % b
+                            P += j * 10 ** (L + 1)
+                            a = P // b
+                            if a * b == P and a < 10 ** 34 and P // 10 ** L < 10 ** 34:
+                                ea, eb = r.randint(-25, 20), r.randint(-25, 20)
+                                out.append(('mul', (sg, a, ea), (r.random() < 0.5, b, eb), 'mul-' + kind))
+    # ---- division: a / b * 10^x = K + 1/2 +- 1/(2b) (the nearest a quotient can come to a half-way point), and exact ties (2K+1)/2
+    for d in range(1, 34):
+        for kind in ('above', 'below'):
+            for _ in range(ctx.pick(2, 8)):
+                b = r.randint(10 ** (d - 1), 10 ** d - 1) | 1
+                if b % 5 == 0:
+                    b += 2
+                if b >= 10 ** d or b % 5 == 0:
+                    continue
+                M = 2 * 10 ** d
+                inv = pow(b, -1, M)
+                rr = (-inv) % M if kind == 'above' else inv % M
+                t = r.randint(10 ** (33 - d), 10 ** (34 - d) - 1)
+                twoK1 = rr + t * M
+                num = twoK1 * b + (1 if kind == 'above' else -1)
+                if num % M:
+                    continue
+                a = num // M
+                K = (twoK1 - 1) // 2
+                if not (10 ** 33 <= K < 10 ** 34 and 0 < a < 10 ** 34):
+                    continue
+                out.append(('div', (r.random() < 0.5, a, r.randint(-20, 20)), (r.random() < 0.5, b, r.randint(-20, 20)), 'div-sticky-' + kind))
+    for parity in (0, 1):
+        for _ in range(ctx.pick(8, 60)):
+            K = kept(34, parity, lead_max=4)
+            out.append(('div', (r.random() < 0.5, 2 * K + 1, r.randint(-20, 20)), (False, r.choice([2, 20, 2000, 2 * 10 ** 20]), r.randint(-20, 20)), 'div-tie'))
+    # ---- square roots next to a half-way point
+    p2, p5 = 2 ** 34, 5 ** 34
+    for K in ((-pow(p2, -1, p5) % p5) * p2 % 10 ** 34, (pow(p5, -1, p2) * p5 - 1) % 10 ** 34, (pow(p5, -1, p2) * p5) % 10 ** 34, (-pow(p2, -1, p5) % p5 * p2 - 1) % 10 ** 34):
+        if K * (K + 1) % 10 ** 34 == 0 and K > 0:
+            a = K * (K + 1) // 10 ** 34            # sqrt(a * 10^34) = K + 1/2 - 1/(8K): just below a tie
+            for e2 in (0, -34, 10, -20):
+                if 0 < a < 10 ** 34:
+                    out.append(('sqrt', (False, a, e2), None, 'sqrt-near-tie'))
+    for m in [1, 2, 3, 4, 5, 7, 10, 11, 100, 101, 12345, 10 ** 6 + 1, 10 ** 9 + 7, 10 ** 12 + 3] + [r.randint(1, 10 ** r.randint(1, 15)) for _ in range(ctx.pick(20, 200))]:
+        K = 10 ** 17 - m
+        for delta in (1, -1, 2, -2):
+            a = K * K + delta                        # sqrt = K +- (1/2 + ...) * 10^-17 * |delta|: next to a tie of the 34-digit result for |delta| = 1
+            if 0 < a < 10 ** 34:
+                out.append(('sqrt', (False, a, r.choice([0, 0, -2, 4, -34])), None, 'sqrt-near-tie'))
+    return out
+
+
 def unary_cases(ctx):
     r = ctx.rng
     out = []
@@ -507,7 +624,7 @@ def run(ctx):
         ok = (val == want) if isinstance(want, bool) or isinstance(val, bool) or want is None or val is None else dpy(val) == dpy(want)
         if kind in ('bad', 'nonfinite') or not ok:
             ctx.violation('FEEL %s evaluates to %s, expected %s' % (e, val, 'null' if want is None else want), {'expression': e}, impl=val, model=want)
-    cases = [(op, a, b, cl) for op, a, b, cl in binary_cases(ctx)] + unary_cases(ctx)
+    cases = [(op, a, b, cl) for op, a, b, cl in binary_cases(ctx)] + unary_cases(ctx) + rounding_cases(ctx)
     reqs = [{'op': op, 'a': dtext(a), 'b': (dtext(b) if isinstance(b, tuple) else str(b if b is not None else 0))} for op, a, b, _ in cases]
     impl = ctx.run_impl('num', reqs)
     # the Coq model builds the exact integers: cases spanning more than 250 digits are evaluated in Coq only for a sample, the others by libmpdec alone
